@@ -844,8 +844,10 @@ def _annotate_body(em, fid, body, c, indent):
         if d["iter"]:
             # `for x in EXPR {`  ->  `for x in <iter-name>: EXPR`
             j = kw
-            while not (body[j].kind == "ident" and body[j].text == "in"):
+            while j < ob and not (body[j].kind == "ident" and body[j].text == "in"):
                 j += 1
+            if j >= ob or not (body[kw].kind == "ident" and body[kw].text == "for"):
+                raise LostAnchor(f"{fid}: loop #{k} is annotated as a `for` loop with a ghost iterator but is no longer one (lost anchor)")
             ins_before.setdefault(j + 1, []).append(("raw", f" {A_OPEN}{d['iter']}:{A_CLOSE}"))
     ins_after = {}
     if c is not None and c.ghosts:
